@@ -35,3 +35,22 @@ Print Assumptions C12_documented_variables_written.
 Print Assumptions C12_script_accepts_what_it_reads.
 Print Assumptions C12_hy_dy_positive.
 Print Assumptions C12_inconsistent_options_refused.
+
+(* ---------------------------------------------------------------------------------------------------------------
+   'Never a hang': the two ITERATIONS of contour construction are bounded by their own counters in ANY arithmetic (binary64 with
+   nan / inf included) -- the models' structural fuel is never exhausted (theories/Model_Refine.v, Model_Equalise.v; both run
+   bit for bit against the real methods).  What is NOT bounded by a counter (solve_ivp inside refinePointIntegrate / followPerpendicular,
+   brentq) is a contract: the envelope oracle observes 'an exception or a valid file' on unfavourable inputs. *)
+From HT Require Import Field Model_Refine Proof_Refine Model_Quadrature Model_Equalise Proof_Equalise.
+
+Theorem C12_newton_refinement_is_bounded : forall (T : Type) (O : ops T) extra f atol s fprev,
+  newton_loop O (newton_fuel + extra) 0 f atol s fprev = newton_loop O newton_fuel 0 f atol s fprev.
+Proof. intros. apply newton_fuel_enough. Qed.
+
+Theorem C12_equal_spacing_iteration_is_bounded : forall (T : Type) (O : ops T) refine atol damping maxits nfine el si ei extra pos err,
+  eq_loop O refine atol damping maxits nfine el si ei (S maxits + extra) 1 pos err =
+  eq_loop O refine atol damping maxits nfine el si ei (S maxits) 1 pos err.
+Proof. intros. apply equalise_fuel_enough. Qed.
+
+Print Assumptions C12_newton_refinement_is_bounded.
+Print Assumptions C12_equal_spacing_iteration_is_bounded.
